@@ -170,6 +170,18 @@ CHECKS = {
              "covered. Known finding (12 keys, one cause): a refused merge has already mutated the target.",
         technique="TLA+ library-merge (provenance ids) and macro (exact rationals) specs + TLC; merge edges replayed on real libraries; TLC trace validation of merge histories",
     ),
+    "C18": dict(
+        text="Blueprint.tla models an abstract blueprint document (custom isotopics, components with numeric or linked dimensions, blocks, assemblies with lists and "
+             "material modifications, grids as text map or explicit list, systems) with 30 edit actions in 5 families; Verdict(doc) says well-formed or which refusal, "
+             "Expected(doc) is the independent reading (cell -> design -> blocks -> components with links followed, multiplicities, temperatures, flags, compositions in "
+             "weight-free units). AsciiMap(Defs).tla defines text maps as pictures of the lattice in grid coordinates (DrawReadsBack, Unambiguous, IsPicture ...). TLC "
+             "enumerates documents and maps; every document is rendered to YAML, loaded and built by armi and compared with Expected (ill-formed ones must raise), "
+             "maps are read / written / re-read by the real classes, and real writer outputs are validated by TLC.",
+        design="3/C18 and 9",
+        note="Trusted: TLC, the YAML renderer, the projection of the built reactor. Documents are edit neighbourhoods (depth <= 3) of hand-written base documents. "
+             "Any exception counts as a refusal. Known finding: duplicate names are not refused (6 keys).",
+        technique="TLA+ blueprint-document and lattice-map specs + TLC; every TLC document built by armi and compared with the spec's expected reactor; TLC validation of writer outputs",
+    ),
 }
 
 NOT_YET = "no specification-bound check has been built for this property yet in this session (planned, see DESIGN.md section 3)"
